@@ -13,7 +13,7 @@ from lib import vlib, qprogs
 
 PROP = ["Properties/C05.v"]
 BIG = 1 << 62
-WALL_BOUND = 4.0     # seconds of wall-clock allowed to a library call that runs under cpu=100000, mem=16 MiB
+WALL_BOUND = 4.0     # least wall-clock bound (s) for a library call under cpu=100000, mem=16 MiB; scaled up by calibration
 TRUSTED = [
     "Coq 8.16.1 kernel (coqc); no axioms in the C05 theorems",
     "model Ctx/Model.v + Ctx/NestModel.v tied to the Go manager by the C07 correspondence (gvh ctx vs extracted oracle)",
@@ -253,6 +253,18 @@ def run(tier, seed):
                    "for i=1,5 do keep[i]=setmetatable({},{__gc=function() local n=0 for j=1,1000 do n=n+j end emit('gc-of-killed-ran',n) end}) end "
                    "%s end) emit('ctx',c.status) keep=nil collectgarbage() collectgarbage() emit('end')" % (inner, body))
             gc_cases.append((inner, src))
+    # ... and neither do the to-be-closed handlers pending in it: CallContext discards them; they must not run later in
+    # the parent (e.g. when the function that called runtime.callcontext returns or leaves a block)
+    guard = "setmetatable({},{__close=function() local n=0 for j=1,1000 do n=n+j end emit('gc-of-killed-ran',n) end})"
+    for inner in ("{kill={cpu=2000}}", "{kill={cpu=2000,memory=1000000}}"):
+        for shape in ("local g<close> = %s while true do end" % guard,
+                      "local function callee() local g<close> = %s while true do end end callee()" % guard,
+                      "pcall(function() local g<close> = %s while true do end end)" % guard,
+                      "do local g1<close> = %s do local g2<close> = %s while true do end end end" % (guard, guard),
+                      "for i=1,3 do local g<close> = %s if i==2 then while true do end end end" % guard):
+            src = ("local function run() do local c=runtime.callcontext(%s,function() %s end) emit('ctx',c.status) end emit('left-block') end "
+                   "run() emit('returned') local t={} for i=1,100 do t[i]=i end emit('end')" % (inner, shape))
+            gc_cases.append((inner, src))
     glines = ["g%d %s" % (k, hexs(src)) for k, (_, src) in enumerate(gc_cases)] + \
              ["G%d %s cpu=%d" % (k, hexs(src), 50000000) for k, (_, src) in enumerate(gc_cases)]
     gouts = [parse(l) for l in vlib.run_lines_resilient(gvh, ["lua"], glines, per_case_timeout=30)]
@@ -266,7 +278,7 @@ def run(tier, seed):
         elif ["ctx", "killed"] not in evs:
             ck.violation("explicit context %s with a non-terminating body did not end 'killed'" % inner, rep)
         elif any(e[0] == "gc-of-killed-ran" for e in evs):
-            ck.violation("a __gc finaliser of a value created in a killed context ran (the killed computation continues from its finaliser)", rep)
+            ck.violation("a __gc finaliser or pending __close handler of a killed context ran afterwards (the killed computation continues from its handler)", rep)
 
     # ------------------------------------------------------------ the same exactness for a limit set INSIDE a limited context
     # runtime.callcontext({kill={cpu=L}}, body) under an outer CPU limit, after the parent has used P ticks of its own: the
@@ -329,7 +341,19 @@ def run(tier, seed):
     aouts = []
     # run one by one to time each case (wall-clock per tick is the observable for "bounded real work")
     slow = []
+    # calibration: a reference case that allocates and processes as much memory as the limit allows, timed before and
+    # after the sweep; the wall-clock bound scales with it so that a loaded machine does not raise alarms
+    calib = "c0 %s cpu=%d mem=%d wall=1" % (hexs("local s=string.rep('x',1<<24) emit(#s:upper(), #s:reverse())"), BIG, 1 << 27)
+
+    def calibrate():
+        o = parse(vlib.run_lines_resilient(gvh, ["lua"], [calib], per_case_timeout=60)[0])
+        return int(o.get("W", "0")) / 1e6 if o["status"] == "ok" else 0.0
+
+    t_ref = calibrate()
     res = vlib.run_lines_resilient(gvh, ["lua"], alines, per_case_timeout=15, mem_kb=6 * 1024 * 1024)
+    t_ref = max(t_ref, calibrate())
+    wall_bound = max(WALL_BOUND, 60 * t_ref)
+    ck.cov["amplifier_calibration"] = {"reference_case_seconds": round(t_ref, 3), "wall_bound_seconds": round(wall_bound, 2)}
     for (name, e, src), l in zip(amp_cases, res):
         o = parse(l)
         ck.case("amp:%s@2^%d" % (name, e), True)
@@ -349,7 +373,7 @@ def run(tier, seed):
             wall = int(o.get("W", "0")) / 1e6
             if wall > worst_wall[0]:
                 worst_wall = (wall, "%s N=2^%d" % (name, e))
-            if wall > WALL_BOUND:
+            if wall > wall_bound:
                 k = ck.known_match(lambda kf: kf.get("match", {}).get("class") == "unmetered-op" and kf["match"].get("amplifier") == name)
                 if k:
                     ck.known_finding(k)
@@ -357,7 +381,7 @@ def run(tier, seed):
                     rep["wall_seconds"] = wall
                     ck.violation("library call %s with N=2^%d ran for %.1f s under a CPU limit of 100000 ticks (status %s, %d ticks "
                                  "charged): work is done that the counter does not see" % (name, e, wall, o["status"], o.get("ucpu", 0)), rep)
-    ck.cov["amplifier_worst_wall_seconds"] = {"seconds": round(worst_wall[0], 3), "case": worst_wall[1], "bound": WALL_BOUND}
+    ck.cov["amplifier_worst_wall_seconds"] = {"seconds": round(worst_wall[0], 3), "case": worst_wall[1], "bound": round(wall_bound, 2)}
     ck.log("amplification: %d cases in %.1fs" % (len(amp_cases), time.time() - t0))
 
     if not ok_obl:
